@@ -321,6 +321,10 @@ class LibHarness(Harness):
             if self.mode == 'meta':
                 key = [upd, oth][ctx.choose(2)] if step else upd
                 spec = ([('M', 'title: y\n')] if ctx.choose(2) else []) + [('P',)]
+            elif step == 0 and ctx.choose(2) == 1:
+                key = 'c'           # a brand-new note arrives through the edit path (didChange / didSave of a new file)
+                menu_c = [[('P',)], [('H',), ('R', upd)], [('R', 'zz')]]
+                spec = menu_c[ctx.choose(len(menu_c))]
             elif step == 0:
                 key = upd
                 spec = gen_doc_spec(ctx, targets[:2] if quick else targets, 2, not quick, small_tail=quick)
